@@ -74,7 +74,14 @@ def oracle(ctx):
         vals = [rnd.choice(pool_ok) for _ in range(rnd.randint(1, 3))]
         if rnd.random() < 0.5:
             vals.insert(rnd.randint(0, len(vals)), rnd.choice(pool_bad + [s for s in strings[:2000] if s]))
-        deco = [rnd.choice(['', ' ', '  ', '\t']) + v + rnd.choice(['', ' ', '\t ']) for v in vals]
+        # white space around the value: bare in the file (dropped by the reader) or protected by quotes / escapes, so that
+        # it reaches the converter — which must ignore it and pass the bare value on
+        def spell(v):
+            r = rnd.random()
+            if r < 0.55 or v == '' or '"' in v or '\\' in v:
+                return rnd.choice(['', ' ', '  ', '\t']) + v + rnd.choice(['', ' ', '\t '])
+            return rnd.choice(['" ' + v + ' "', '"' + v + '"', v + '\\t', '\\x20' + v, '"\\t' + v + '"', "' " + v + "'", v + '\\s'])
+        deco = [spell(v) for v in vals]
         cases.append((vals, deco))
     ops = [f'convert\t0\t0\t{hx("/q/c.container")}\t{hx(container(d))}' for _, d in cases]
     io = ctx.impl(ops)
